@@ -35,6 +35,7 @@ func runC12(c *Check, tier string) {
 	shareRule(c, "R12j", "the loader's shared package table loses no package: lookup and insert are one critical section (same obligation as R16l)", 1, "R16l", func(sub *Check) { ruleTableInsertAtomic(sub, "R16l") }, nil)
 	// the dependency lists the closure follows are the declared ones: nobody writes through them
 	ruleAdjacencyNotAliased(c, "R12l")
+	ruleTagSidesTreatedAlike(c, "R12m")
 }
 
 // R12f: the platform predicate is exact membership.
